@@ -57,6 +57,9 @@ def _n2u(name):
         return None
 
 
+SUFFIXES = ["", ".sc", ".", ".a.b", ".sc_B", ".a_uni0042.b_"]      # everything from the first period on is dropped BEFORE the name is split at underscores
+
+
 def h2_names(kind="uni4", timeout=200, part=None, **kw):
     import pdfminer.encodingdb as ed
 
@@ -75,7 +78,7 @@ def h2_names(kind="uni4", timeout=200, part=None, **kw):
             pool = ["A", "B", "uni0041", "u1F600", "foo", "", "uniD800", "uni", "u12", "Euro", "uni00410042", "unia"]
             for i in range(k):
                 comps.append(pool[ex.choice(len(pool), "c%d" % i)])
-            name = "_".join(comps) + ["", ".sc", ".", ".a.b"][ex.choice(4, "suffix")]
+            name = "_".join(comps) + SUFFIXES[ex.choice(len(SUFFIXES), "suffix")]
         got = _n2u(name)
         exp = agl(name)
         ex.require(got == exp, "name2unicode(%r) = %r, the Adobe Glyph List algorithm gives %r" % (name, got, exp), name=name)
